@@ -527,7 +527,24 @@ func writeHeld(w *bufio.Writer, held []recvRec) {
 			}
 		}
 	}
-	fmt.Fprintf(w, "HC %d %d %d\n", n, rawChanged, nameChanged)
+	// the parsed view handed to the forwarding thread must be a view of pkt.Raw itself: the thread decrements the HopLimit through
+	// Interest.HopLimitV and the outgoing face sends pkt.Raw.  Mutate through the view, re-parse Raw, compare.
+	viewChecked, viewDetached := 0, 0
+	for _, rec := range held {
+		for _, d := range rec.dl {
+			if d.pkt.L3 == nil || d.pkt.L3.Interest == nil || d.pkt.L3.Interest.HopLimitV == nil {
+				continue
+			}
+			viewChecked++
+			*d.pkt.L3.Interest.HopLimitV -= 1
+			want := *d.pkt.L3.Interest.HopLimitV
+			p, _, err := spec.ReadPacket(enc.NewBufferReader(append([]byte{}, d.pkt.Raw...)))
+			if err != nil || p.Interest == nil || p.Interest.HopLimitV == nil || *p.Interest.HopLimitV != want {
+				viewDetached++
+			}
+		}
+	}
+	fmt.Fprintf(w, "HC %d %d %d %d %d\n", n, rawChanged, nameChanged, viewChecked, viewDetached)
 }
 
 // ------------------------------------------------------------------------------------------------ packets
@@ -575,13 +592,44 @@ func mkData(r *rand.Rand, target int) []byte {
 }
 
 func mkInterest(r *rand.Rand) []byte {
-	name := randName(r)
+	return mkInterestSized(r, 0)
+}
+
+// mkInterestSized makes a valid Interest with a HopLimit, padded with a long name component to about target bytes (0 = small).
+func mkInterestSized(r *rand.Rand, target int) []byte {
+	base := randName(r)
 	lt := 4 * time.Second
-	i, err := spec.Spec{}.MakeInterest(name, &ndn.InterestConfig{Nonce: utils.IdPtr(r.Uint64() >> 32), Lifetime: &lt, MustBeFresh: r.Intn(2) == 0}, nil, nil)
-	if err != nil {
-		panic(err)
+	hl := uint(1 + r.Intn(200))
+	nonce := utils.IdPtr(r.Uint64() >> 32)
+	fresh := r.Intn(2) == 0
+	pad := -1
+	var wire []byte
+	for iter := 0; iter < 8; iter++ {
+		name := base
+		if pad >= 0 {
+			p := make([]byte, pad)
+			for i := range p {
+				p[i] = byte('a' + i%26)
+			}
+			name = append(append(enc.Name{}, base...), enc.NewBytesComponent(enc.TypeGenericNameComponent, p))
+		}
+		i, err := spec.Spec{}.MakeInterest(name, &ndn.InterestConfig{Nonce: nonce, Lifetime: &lt, MustBeFresh: fresh, HopLimit: &hl}, nil, nil)
+		if err != nil {
+			panic(err)
+		}
+		wire = i.Wire.Join()
+		if target == 0 || len(wire) == target {
+			break
+		}
+		if pad < 0 {
+			pad = 0
+		}
+		pad += target - len(wire)
+		if pad < 0 {
+			break
+		}
 	}
-	return i.Wire.Join()
+	return wire
 }
 
 var lpMTUs = []int{128, 255, 256, 1500, 8800}
@@ -664,8 +712,12 @@ func genPermCase(r *rand.Rand, idx int, thorough bool) *lpCase {
 	sizes := boundarySizes(mtu)
 	for m := 0; m < nmsg; m++ {
 		var wire []byte
-		if r.Intn(5) == 0 {
-			wire = mkInterest(r)
+		if r.Intn(4) == 0 { // Interests with a HopLimit, one to three fragments on the small MTUs
+			if mtu <= 256 && r.Intn(3) != 0 {
+				wire = mkInterestSized(r, mtu/2+r.Intn(2*mtu))
+			} else {
+				wire = mkInterest(r)
+			}
 		} else {
 			target := sizes[r.Intn(len(sizes))]
 			if r.Intn(4) == 0 {
